@@ -324,7 +324,7 @@ func c03Replay(pl json.RawMessage) (string, []core.Violation) {
 func init() {
 	core.Register(&core.PropSpec{
 		ID: "C03", Level: "exploration",
-		Rule:     "every chain of 0..3 nested (constructor, operand position) contexts — 4 prefix, 2 postfix, 13 binary x 2 sides, 3 assignment x 2 sides, callee, arguments, member object, index, array/object elements, function body, explicit group — around each of 9 leaf kinds, built programmatically as ast nodes WITHOUT grouping nodes (callee/object positions call-level-or-tighter, assignment/update targets identifier or member, as the property states); each tree placed as expression statement, let initialiser and call argument; printed compact / pretty / pretty without semicolons, re-parsed by xjs, shapes compared, and printed again (fixed point). quick: depth 3 over operator representatives (one per level and role); thorough: all operators. non-trivial = tree in which a correct printer must add parentheses",
+		Rule:     "every chain of 0..3 nested (constructor, operand position) contexts — 4 prefix, 2 postfix, 13 binary x 2 sides, 3 assignment x 2 sides, callee, arguments, member object, index, array/object elements, function body, explicit group — around each of 9 leaf kinds, built programmatically as ast nodes WITHOUT grouping nodes (callee/object positions call-level-or-tighter, assignment/update targets identifier or member, as the property states); each tree placed as expression statement, let initialiser and call argument; printed compact / pretty / pretty without semicolons, re-parsed by xjs, shapes compared, and printed again (fixed point). quick: depth 3 over operator representatives (one per level and role); thorough: all operators. non-trivial = tree in which a correct printer must add parentheses Added families: multi-line literal leaves in 10 statement places incl. return; edited trees (print, replace the operator of the root or inner binary node in place for every operator triple, print again, compare with a freshly built tree); long programmatic chains (left-deep, right-deep, zig-zag over 7 operator cycles) of 9..129 (513 thorough) nodes.",
 		Assume:   []string{"xjs's own parser (checked against ECMAScript by C02) is the reader"},
 		QuickSec: 300, ThorSec: 1800, Run: c03Run, Replay: c03Replay,
 		Evals: "print_parse_roundtrips", Nontriv: "trees_needing_parentheses",
